@@ -79,6 +79,8 @@ class Contract:
         cx = Ctx(eng, st)
         x = z3.Const('x!pyax', Ref)
         st.facts.append(z3.ForAll([x], M.py_len(x) >= 0, patterns=[M.py_len(x)]))      # len() is never negative
+        # no object is both a list and a tuple (PyList_Check / PyTuple_Check test disjoint type flags)
+        st.facts.append(z3.ForAll([x], z3.Not(z3.And(M.py_is_list(x), M.py_is_tuple(x))), patterns=[M.py_is_list(x)]))
         for name, e in self.pre(cx):
             st.facts.append(e)
         return cx
